@@ -258,3 +258,74 @@ for _z, _red, _tier in ((True, False, 'quick'), (False, True, 'quick')):
                    '2^128' if _red else '2^128', 'all fees zero' if _z else ('five fixed fee configurations (protocol/swap/burn 0.1/0.2/0, 1/2/1, 0/0.3/0 percent; 0.1/0.3/0.1 + extra fees 0.5 and 1.5; '
                                                                            '0/0.2/0 + one extra fee 0.1)' if _red else 'real is_valid fees with total > 0')),
                covers=['ok'], opts={'check_timeout_ms': 120000}, replay=_replay_k1(_z))(_ob_k1(_z, _red))
+
+
+# ---------------------------------------------------------------- three hops over three distinct pools
+
+def _replay_route_native3(label, m):
+    from .c02 import _mints
+    from ..replayer import run_scenario
+    ops = [{'mantra_swap': {'token_in_denom': a, 'token_out_denom': bb, 'pool_identifier': pid}} for a, bb, pid in (('uA', 'uB', 'p1'), ('uB', 'uC', 'p2'), ('uC', 'uD', 'p3'))]
+    for ps in ROUTE_PRESETS:
+        fees = (ps['fees'][0], ps['fees'][1], ps['fees'][2], [])
+        steps = [{'op': 'set_pool', 'pool': pool_json('p1', ['uA', 'uB'], [6, 6], [ps['x'], ps['y']], 'constant_product', fees)},
+                 {'op': 'set_pool', 'pool': pool_json('p2', ['uB', 'uC'], [6, 6], [ps['z'], ps['w']], 'constant_product', fees)},
+                 {'op': 'set_pool', 'pool': pool_json('p3', ['uC', 'uD'], [6, 6], [ps['w'], ps['x']], 'constant_product', fees)}]
+        steps += _mints([('pool_manager', [('uA', ps['x']), ('uB', ps['y'] + ps['z']), ('uC', 2 * ps['w']), ('uD', ps['x'])]), ('trader', [('uA', ps['offer'])])])
+        steps.append({'op': 'query', 'contract': 'pool_manager', 'msg': {'simulate_swap_operations': {'offer_amount': str(ps['offer']), 'operations': ops}}})
+        steps.append({'op': 'execute', 'contract': 'pool_manager', 'sender': 'trader', 'funds': [coin_j('uA', ps['offer'])],
+                      'msg': {'execute_swap_operations': {'operations': ops, 'max_slippage': '0.5'}}})
+        steps += [{'op': 'balance', 'addr': 'trader', 'denom': d} for d in ('uD', 'uB', 'uC')]
+        sc = {'setup': {}, 'steps': steps}
+        res = run_scenario(sc).get('results')
+        if not res or 'ok' not in res[-4]:
+            continue
+        q, got, stray = res[-5], int(res[-3]['ok']), int(res[-2]['ok']) + int(res[-1]['ok'])
+        bad = None
+        if 'ok' not in q:
+            bad = 'route executes but SimulateSwapOperations fails: %s' % json.dumps(q)[:200]
+        elif int(q['ok']['return_amount']) != got:
+            bad = 'SimulateSwapOperations quoted %s but ExecuteSwapOperations delivered %d' % (q['ok']['return_amount'], got)
+        elif stray != 0:
+            bad = 'intermediate proceeds (%d) reached the trader' % stray
+        if bad:
+            return sc, (lambda o, w=bad + ' (3 hops, offer %d)' % ps['offer']: (True, w))
+    return None
+
+
+@obligation('C12', 'R3.route_simulation_equals_execution_3_hops', entries=['query', 'simulate_swap_operations', 'execute', 'execute_swap_operations', 'perform_swap'],
+            kind='R', statement='3-hop route over three distinct pools: SimulateSwapOperations.return_amount equals the amount ExecuteSwapOperations sends to the receiver; '
+                                'no intermediate proceeds reach the trader',
+            bounds='pools uA/uB, uB/uC, uC/uD of any type, reserves/offer [1,2^128), fixed fee configuration selected by VERIF_SEED; two zero/non-zero patterns of the optional '
+                   'fee and slippage components', covers=['ok'], abstractions=[ABSTRACT_PRICING_NOTE], opts={'abstract': ABSTRACT_PRICING}, replay=_replay_route_native3)
+def r3(I):
+    k = I.choose(2, 'pattern')
+    pats = [lambda n, f: 'nonzero', lambda n, f: 'nonzero' if f == 'return' else 'zero']
+    I.world.meta['uf_pattern'] = pats[k]
+    I.set_hint(HINT)
+    r = {n: I.sym('reserve_' + n, lo=1, hi=U128 // 4) for n in ('x', 'y', 'z', 'w', 'u', 'v')}
+    fees = param_fees(I)
+    pm_config(I)
+    put_pool(I, pool_info('p1', ['uA', 'uB'], [6, 6], [r['x'], r['y']], xyk(), fees))
+    put_pool(I, pool_info('p2', ['uB', 'uC'], [6, 6], [r['z'], r['w']], xyk(), clone(fees)))
+    put_pool(I, pool_info('p3', ['uC', 'uD'], [6, 6], [r['u'], r['v']], xyk(), clone(fees)))
+    b = bank_of(I)
+    for d, amt in (('uA', r['x']), ('uB', simp(r['y'] + r['z'])), ('uC', simp(r['w'] + r['u'])), ('uD', r['v'])):
+        b.set(PM, d, amt)
+        b.supply[d] = simp(amt * 2)
+    o = I.sym('offer', lo=1, hi=U128 // 4)
+    b.set('trader', 'uA', o)
+    ops = [swap_op('uA', 'uB', 'p1'), swap_op('uB', 'uC', 'p2'), swap_op('uC', 'uD', 'p3')]
+    qs, sim = run_query(I, query_msg('SimulateSwapOperations', offer_amount=o, operations=Vc([clone(op) for op in ops])))
+    ch = Chain(I, CONTRACTS)
+    pre = b.snapshot()
+    st, resp = ch.execute('trader', PM, route_msg(ops, max_slippage=Some(5 * 10 ** 17)), [coin_v('uA', o)])
+    if st != 'ok':
+        I.outcome('route_rejected')
+        return
+    I.cover('ok')
+    I.check('simulation_succeeds_when_route_does', qs == 'ok')
+    if qs != 'ok':
+        return
+    I.check('final_amount_equal', smt.Eq(sim.get('return_amount'), b.get('trader', 'uD') - pre.get('trader', 'uD')))
+    I.check('nothing_else_reaches_the_trader', smt.And(smt.Eq(b.get('trader', 'uB'), pre.get('trader', 'uB')), smt.Eq(b.get('trader', 'uC'), pre.get('trader', 'uC'))))
